@@ -67,6 +67,8 @@ package server
 //@   ghost-at call append #1 : ghost_needcfg := ite(len(manifest.Config.Digest) > 0, 1, 0)
 //@   loop 1 invariant ghost_needcfg >= 0 && len(layers) >= ghost_nl + ghost_needcfg
 //@   assert-at call makeRequestWithRetry #1 : ghost_up >= ghost_nl + ghost_needcfg
+// (extension) the manifest that is pushed is the stored manifest of the model path parsed from the requested name
+//@   assert-at call GetManifest #1 : arg0 == mp
 
 // ---- uploadBlob: nil means the registry already has the blob (HEAD answered < 400) or the
 // ---- shared blobUpload finished without error (Wait)
@@ -105,10 +107,7 @@ package server
 //@   ghost-at store done #1 : ghost_mounted := ite(resp.StatusCode == 201, 1, 0)
 // blobUpload.Wait: nil is returned only from the `b.done || b.err != nil` exit with b.err == nil,
 // i.e. when Run (or Prepare, for a mounted blob) set done without an error
-//@ extern func (*blobUpload).acquire
-//@   modifies nothing
-//@ extern func (*blobUpload).release
-//@   modifies nothing
+// ((*blobUpload).acquire / release: contracts with verified bodies at the end of this file)
 //@ extern func time.NewTicker
 //@   modifies nothing
 //@   ensures result != nil
@@ -187,6 +186,8 @@ package server
 //@   assert-at call makeRequestWithRetry #1 : arg2 == requestURL
 // the goroutine started in iteration i uploads part i
 //@   assert-at call errgroup.(*Group).Go #1 : part == &b.Parts[i]
+// what the part goroutine (Run$1) requires for uploadPart's log line: proved here at the spawn point
+//@   assert-at call errgroup.(*Group).Go #1 : len(b.Digest) >= 19
 
 // ---- Run$1 (the goroutine that uploads one part): g.Wait() == nil (ghost_waited above) means
 // ---- every such goroutine returned nil; it returns nil only if the LAST uploadPart attempt for
@@ -200,3 +201,85 @@ package server
 //@   ensures result == nil ==> ghost_part == 1
 //@   loop 1 invariant ghost_part == 0
 //@   assert-at call (*blobUpload).uploadPart #1 : arg0 == b && arg2 == "PATCH" && arg3 == requestURL && arg4 == part
+// Run$1 owes uploadPart the digest length (Run's own precondition; b is captured, never reassigned)
+//@   requires len(b.Digest) >= 19
+
+// ==== coverage extension: the part upload itself and the helpers of Wait ======================
+// ---- uploadPart: "every layer has been accepted by the registry" rests, for the default push path,
+// ---- on what uploadPart reports as success. nil is returned only (a) after makeRequest answered
+// ---- without error with a status that is none of 307 / 401 / >= 400, or (b) on the redirect path
+// ---- (307) after the LAST attempt to PUT the part to the redirect URL returned nil. The request
+// ---- carries the part's own byte range of the blob file (section reader offset/size) and goes to
+// ---- the URL/method the caller named; the md5 of the part (used for the commit etag in Run) is
+// ---- recorded on success.
+//@ extern func io.NewSectionReader
+//@   modifies nothing
+//@   ensures result != nil
+//@ extern func crypto/md5.New
+//@   modifies nothing
+//@   ensures result != nil
+//@ extern func io.MultiWriter
+//@   modifies nothing
+//@ extern func strconv.FormatInt
+//@   modifies nothing
+//@ extern func net/http.(*Response).Location
+//@   modifies nothing
+//@   ensures result.1 == nil ==> result.0 != nil && fresh(result.0)
+//@ extern func time.Sleep
+//@   modifies nothing
+//@ extern func math.Pow
+//@   modifies nothing
+//@ func (*blobUpload).uploadPart
+//@   requires len(b.Digest) >= 19           -- the log line of the redirect retry loop slices b.Digest[7:19]
+//@   modifies part.Hash, opts.Token, requestURL.Scheme
+//@   ghost-at entry : ghost_sent := 0
+//@   ghost-at entry : ghost_status := 0
+//@   ghost-at entry : ghost_redir := -1
+//@   ghost-at after call makeRequest #1 : ghost_sent := ite(result.1 == nil, 1, 0)
+//@   ghost-at after call makeRequest #1 : ghost_status := ite(result.1 == nil, result.0.StatusCode, 0)
+//@   ghost-at after call (*blobUpload).uploadPart #1 : ghost_redir := ite(result == nil, 1, 0)
+//@   ensures result == nil ==> ghost_sent == 1
+//@   ensures result == nil ==> (ghost_status == 307 && ghost_redir == 1) || (ghost_status != 307 && ghost_status != 401 && ghost_status < 400 && ghost_redir == -1)
+// at the head of the redirect retry loop no earlier attempt was accepted (an accepted attempt ends the loop)
+//@   loop 1 invariant ghost_redir != 1 && ghost_status == 307 && ghost_sent == 1
+// the request: method and URL of the caller, body = this part's range of the blob file
+//@   assert-at call makeRequest #1 : arg1 == method && arg2 == requestURL && arg5 == opts
+//@   assert-at call io.NewSectionReader #1 : arg1 == part.Offset && arg2 == part.Size
+//@   assert-at call io.NewSectionReader #1 : slog.AnyValue(arg0) == slog.AnyValue(b.file)
+// the redirect attempt uploads the SAME part with PUT to the location the registry named
+//@   assert-at call (*blobUpload).uploadPart #1 : arg0 == b && arg2 == "PUT" && arg3 == redirectURL && arg4 == part
+// success records the part's md5 (Run's etag reads part.Sum for every part)
+//@   ensures result == nil ==> part.Hash != nil
+// the next upload URL handed to Run / the next part is the one parsed from this answer
+//@   assert-at send nextURL #1 : sent == nextURL
+//@   assert-at send nextURL #2 : sent == nextURL
+
+// ---- acquire / release (reference count of Wait): bodies verified, frame as trusted before
+//@ extern func sync/atomic.(*Int32).Add
+//@   modifies nothing
+//@ extern func (blobUpload).CancelFunc
+//@   modifies nothing
+//@ func (*blobUpload).acquire
+//@   modifies nothing
+//@   assert-at call atomic.(*Int32).Add #1 : arg1 == 1
+//@ func (*blobUpload).release
+//@   modifies nothing
+//@   ghost-at entry : ghost_last := 0
+//@   ghost-at after call atomic.(*Int32).Add #1 : ghost_last := ite(result == 0, 1, 0)
+//@   assert-at call atomic.(*Int32).Add #1 : arg1 == -1
+//@   assert-at call (blobUpload).CancelFunc #1 : ghost_last == 1     -- the upload is cancelled only when the last waiter leaves
+
+// ---- progressWriter: the tee target of the part body. Write must accept everything (a short count or
+// ---- an error would make io.TeeReader fail the body read and so the part upload); Rollback takes back
+// ---- exactly what this writer added to the shared progress counter.
+//@ extern func sync/atomic.(*Int64).Add
+//@   modifies nothing
+//@ func (*progressWriter).Write
+//@   modifies p.written
+//@   ensures n == len(b) && err == nil
+//@   ensures p.written == old(p.written) + len(b) || len(b) + old(p.written) >= (1 << 63)
+//@   assert-at call atomic.(*Int64).Add #1 : arg1 == len(b)
+//@ func (*progressWriter).Rollback
+//@   modifies p.written
+//@   ensures p.written == 0
+//@   assert-at call atomic.(*Int64).Add #1 : p.written > -(1 << 63) ==> arg1 == -p.written      -- (machine negation of MinInt64 wraps)
